@@ -44,6 +44,10 @@ def common_stats(run, st=None):
         inc("flag|%s" % run.soln.flag)
     if run.exc is not None:
         inc("exc|%s|%s" % (type(run.exc).__name__, engine.exc_site(run.exc)))
+    if c.extra.get("lagrange_failed_from"):
+        inc("failpoint_fired_in|" + c.extra["lagrange_failed_from"])
+    if c.extra.get("tr_increase_fired"):
+        inc("failpoint_fired_in|calculate_ratio")
     if run.livelock:
         inc("livelock")
     if run.timeout:
